@@ -171,3 +171,130 @@ Qed.
 
 Lemma gen_buffer_invert_eq p : g_buffer_invert p = inv_mask (p_inv p).
 Proof. unfold g_buffer_invert, inv_mask. rewrite gen_buffer_invert_from. lia. Qed.
+
+(* ------------------------------------------------------------------ Buffer.elaborate (symbolic execution) *)
+(* Reading of the generated description against the model's cells: a cell's direction is which of o / i it connects
+   (oe must accompany o); the inversion between buffer member o and a cell's o is read off the comb statements
+   (GFresh n driven by GXor GO c with c the inversion constant: p_inv; GO itself: none; GNot: complemented);
+   member i is bit k of cell 0, inverted by p_inv when cell 0's i is a GFresh driven through GSelfI = GXor _ c. *)
+Fixpoint gconn_eqb (a b : gconn) : bool :=
+  match a, b with
+  | GO, GO | GOE, GOE | GSelfI, GSelfI => true
+  | GFresh n, GFresh m => Nat.eqb n m
+  | GXor x c, GXor y d => gconn_eqb x y && Z.eqb c d
+  | GNot x, GNot y => gconn_eqb x y
+  | _, _ => false
+  end.
+Fixpoint g_lookup (comb : list (gconn * gconn)) (t : gconn) : option gconn :=
+  match comb with [] => None | (x, e) :: r => if gconn_eqb x t then Some e else g_lookup r t end.
+Definition g_no_inv (p : port) : list bool := repeat false (length (p_inv p)).
+Fixpoint g_oinv (p : port) (comb : list (gconn * gconn)) (c : gconn) : list bool :=
+  match c with
+  | GO => g_no_inv p
+  | GFresh n => match g_lookup comb (GFresh n) with
+                | Some (GXor GO m) => if Z.eqb m (inv_mask (p_inv p)) then p_inv p else []
+                | _ => [] end
+  | GNot c' => map negb (g_oinv p comb c')
+  | _ => []
+  end.
+Definition g_iinv (p : port) (comb : list (gconn * gconn)) (c : gconn) : list bool :=
+  match c with
+  | GSelfI => g_no_inv p
+  | GFresh n => match g_lookup comb GSelfI with
+                | Some (GXor (GFresh n') m) =>
+                    if Nat.eqb n n' && Z.eqb m (inv_mask (p_inv p)) then p_inv p else []
+                | _ => [] end
+  | _ => []
+  end.
+Definition g_cell_of (p : port) (comb : list (gconn * gconn)) (c : gcell) : cell :=
+  match gc_o c, gc_oe c, gc_i c with
+  | None, None, Some _ => Cell (gc_port c) DIn []
+  | Some x, Some GOE, None => Cell (gc_port c) DOut (obits_from 0 (g_oinv p comb x))
+  | Some x, Some GOE, Some _ => Cell (gc_port c) DBidir (obits_from 0 (g_oinv p comb x))
+  | _, _, _ => Cell [] DIn []
+  end.
+Definition g_cells_of (p : port) (e : gelab) : list cell * list ibit :=
+  (map (g_cell_of p (ge_comb e)) (ge_cells e),
+   match ge_cells e with
+   | c0 :: _ => match gc_i c0 with Some x => ibits_from 0 (g_iinv p (ge_comb e) x) | None => [] end
+   | [] => []
+   end).
+
+Lemma g_inv_from_nonneg inv : forall idx, 0 <= idx -> 0 <= inv_mask_from idx inv.
+Proof.
+  induction inv as [|b r IH]; intros idx Hi; cbn [inv_mask_from]; [lia|].
+  specialize (IH (idx + 1) ltac:(lia)).
+  assert (0 <= Z.shiftl (Z.b2z b) idx) by (apply Z.shiftl_nonneg; destruct b; cbn; lia). lia.
+Qed.
+
+Lemma g_inv_from_zero inv : forall idx, 0 <= idx -> inv_mask_from idx inv = 0 -> inv = repeat false (length inv).
+Proof.
+  induction inv as [|b r IH]; intros idx Hi H; cbn [inv_mask_from] in H; [reflexivity|].
+  pose proof (g_inv_from_nonneg r (idx + 1) ltac:(lia)) as Hr.
+  destruct b; cbn [Z.b2z] in H.
+  - exfalso. rewrite Z.shiftl_1_l in H. assert (0 < 2 ^ idx) by (apply Z.pow_pos_nonneg; lia). lia.
+  - rewrite Z.shiftl_0_l in H. cbn [length repeat]. f_equal. apply (IH (idx + 1)); lia.
+Qed.
+
+Lemma neg_obits_from inv : forall k, obits_from k (map negb inv) = neg_obits (obits_from k inv).
+Proof. induction inv as [|b r IH]; intros k; cbn; [reflexivity|]. rewrite IH. reflexivity. Qed.
+
+Lemma gen_buffer_cells_eq bd p o oe st : g_cells_of p (g_buffer_elab bd p o oe st) = buffer_cells bd p.
+Proof.
+  unfold g_buffer_elab, buffer_cells, g_cells_of, g_truthy. rewrite gen_buffer_invert_eq. cbv zeta.
+  destruct (Z.eqb (inv_mask (p_inv p)) 0) eqn:E.
+  - apply Z.eqb_eq in E. pose proof (g_inv_from_zero (p_inv p) 0 ltac:(lia) E) as R.
+    destruct bd, (p_kind p); cbn [negb ge_cells ge_comb map g_cell_of gc_o gc_oe gc_i gc_port g_oinv g_iinv];
+      unfold g_no_inv; rewrite ?neg_obits_from, <- ?R; reflexivity.
+  - destruct bd, (p_kind p);
+      cbn [negb ge_cells ge_comb map g_cell_of gc_o gc_oe gc_i gc_port g_oinv g_iinv g_lookup gconn_eqb Nat.eqb andb];
+      rewrite ?Z.eqb_refl, ?neg_obits_from; reflexivity.
+Qed.
+
+(* the loop-back loop of a Bidir buffer on a SimulationPort *)
+Lemma g_loop_eq (fi fo foe : bstate) w :
+  g_cat (map (fun '((oe_bit, o_bit, i_bit) : bool * bool * bool) => if oe_bit then o_bit else i_bit)
+             (g_zip3 (map foe w) (map fo w) (map fi w)))
+  = loopback (PS fi fo foe) w.
+Proof.
+  induction w as [|r rs IH]; cbn [g_zip3 map g_cat loopback s_i s_o s_oe]; [reflexivity|]. rewrite IH. reflexivity.
+Qed.
+
+Lemma gen_buffer_comb_eq bd p o oe st :
+  p_kind p = KSim -> ge_sem (g_buffer_elab bd p o oe st) = Some (buffer_comb bd p o oe st).
+Proof.
+  intros K. unfold g_buffer_elab, buffer_comb, g_truthy, plen. rewrite gen_buffer_invert_eq, K. cbv zeta.
+  destruct st as [fi fo foe]. cbn [s_i s_o s_oe].
+  destruct bd; destruct (Z.eqb (inv_mask (p_inv p)) 0); cbn [negb ge_sem];
+    rewrite ?g_loop_eq, ?to_nat_zlen; reflexivity.
+Qed.
+
+(* ------------------------------------------------------------------ FFBuffer.elaborate (symbolic execution) *)
+(* the inner Buffer is the regenerated g_buffer_elab; guard: ff_edge models FFBuffer on a SimulationPort only (for
+   real ports the inner buffer's i comes from a cell) *)
+Lemma gen_ff_edge_eq bd p ei eo o oe st s :
+  p_kind p = KSim ->
+  g_ff_edge bd p ei eo o oe st s = (ff_edge bd p ei eo o oe st s, if dir_eqb bd DOut then 0 else f_i s).
+Proof.
+  intros K. unfold g_ff_edge, ff_edge, ff_comb.
+  destruct bd; cbn [dir_eqb negb]; rewrite ?(gen_buffer_comb_eq _ _ _ _ _ K), ?andb_true_r, ?andb_false_r;
+    reflexivity.
+Qed.
+
+(* register stages per path: how many registered statements target o_ff (o path) / i_ff (i path) and their domain *)
+Definition gffreg_eqb (a b : gffreg) : bool :=
+  match a, b with Gf_i, Gf_i | Gf_o, Gf_o | Gf_oe, Gf_oe => true | _, _ => false end.
+Definition g_stages (reg : gffreg) (l : list (option dom * gffreg * gconn)) : nat * option dom :=
+  let hits := filter (fun x => gffreg_eqb (snd (fst x)) reg) l in
+  (length hits, match hits with x :: _ => fst (fst x) | [] => None end).
+Definition g_regs_of (l : list (option dom * gffreg * gconn)) : (nat * option dom) * (nat * option dom) :=
+  (g_stages Gf_o l, g_stages Gf_i l).
+
+(* r is what FFBuffer.__init__ stored (ff_domains, see gen_ffbuffer_init_eq); oe_ff has the same stage as o_ff *)
+Lemma gen_ff_regs_eq bd idom odom r :
+  ff_domains bd idom odom = Ok r ->
+  g_regs_of (g_ff_sync bd r) = ff_regs r /\ g_stages Gf_oe (g_ff_sync bd r) = g_stages Gf_o (g_ff_sync bd r).
+Proof.
+  intros H. destruct bd, idom as [[]|], odom as [[]|]; cbn in H; try discriminate;
+    inversion H; subst; split; reflexivity.
+Qed.
